@@ -52,6 +52,14 @@ type emitter struct {
 	// jump.
 	breakLabel *label
 
+	// branchTargets contains the enclosing statements, from the outermost to
+	// the innermost, that a labeled 'break' or 'continue' can refer to.
+	branchTargets []*branchTarget
+
+	// stmtLabel is the name of the label of the statement that is going to be
+	// emitted, if it is labeled.
+	stmtLabel string
+
 	// inURL indicates if the emitter is currently inside an *ast.URL node.
 	inURL bool
 
